@@ -215,7 +215,60 @@ func (s *Solver) Solve(u *Unit, o *Obligation) *Result {
 	if o.IsCover {
 		cases = [][]*Term{asserts}
 	} else {
-		// first the whole query with a short limit; the case split is for queries that need it
+		// stage 0: only the facts that talk about the terms of the goal (one, then two steps of
+		// shared sub-terms). Fewer premises can only make the query weaker: unsat is conclusive,
+		// anything else falls through to the whole query.
+		if os.Getenv("GPV_NOSTAGE0") == "" {
+			// quantified facts (written forall clauses) turn a bit-vector query into a much harder
+			// one; most goals do not need them
+			qmemo := map[int]bool{}
+			var qf []*Term
+			for i, a := range asserts {
+				if i >= len(asserts)-2 || !hasQuant(a, qmemo) {
+					qf = append(qf, a)
+				}
+			}
+			goalQF := len(qf) == len(asserts) || (!hasQuant(asserts[len(asserts)-1], qmemo) && !hasQuant(asserts[len(asserts)-2], qmemo))
+			for _, depth := range []int{1, 2, 99} {
+				if !goalQF {
+					break
+				}
+				sub := relevantFacts(tb, qf, len(qf)-2, depth)
+				if len(sub) >= len(asserts) {
+					break
+				}
+				pr := NewPrinter(tb)
+				sc := pr.Script(sub, nil, "")
+				u.mu.Unlock()
+				s.mu.Lock()
+				s.n++
+				idr := s.n
+				s.mu.Unlock()
+				pathr := filepath.Join(s.dir, fmt.Sprintf("q%05d.smt2", idr))
+				os.WriteFile(pathr, []byte("; "+o.Name+" (relevant facts, depth "+fmt.Sprint(depth)+")\n"+sc), 0o644)
+				s.sem <- struct{}{}
+				lim := 8
+				if depth > 1 {
+					lim = 6
+				}
+				ctxr, cancelr := context.WithTimeout(context.Background(), time.Duration(lim)*time.Second)
+				ar, _, msr := runOne(ctxr, SolverSpec{"z3-5.1.0", []string{"z3-new", fmt.Sprintf("-T:%d", lim), "-smt2"}}, pathr)
+				cancelr()
+				<-s.sem
+				if os.Getenv("GPV_KEEP") == "" {
+					os.Remove(pathr)
+				}
+				r.Ms += msr
+				r.SolverMs["z3-5.1.0"] += msr
+				if ar == "unsat" {
+					r.VCBytes = len(sc)
+					r.Status, r.Answer, r.Solver, r.Cases = "discharged", "unsat", "z3-5.1.0", 1
+					return r
+				}
+				u.mu.Lock()
+			}
+		}
+		// then the whole query with a short limit; the case split is for queries that need it
 		p0 := NewPrinter(tb)
 		whole := p0.Script(asserts, gv, "")
 		u.mu.Unlock()
@@ -502,6 +555,101 @@ func pruneFacts(tb *TB, asserts []*Term, goalStart int) []*Term {
 				for s := range syms[i] {
 					live[s] = true
 				}
+			}
+		}
+	}
+	var out []*Term
+	for i, a := range asserts {
+		if keep[i] {
+			out = append(out, a)
+		}
+	}
+	return out
+}
+
+func hasQuant(t *Term, memo map[int]bool) bool {
+	if v, ok := memo[t.id]; ok {
+		return v
+	}
+	r := t.Op == "forall" || t.Op == "exists"
+	if !r {
+		for _, a := range t.Args {
+			if hasQuant(a, memo) {
+				r = true
+				break
+			}
+		}
+	}
+	memo[t.id] = r
+	return r
+}
+
+// relevantFacts keeps the goal part and the facts within `depth` steps of it, where two
+// assertions are one step apart if they share an atom: a symbol or an application of an
+// uninterpreted function (a memory cell, a string length, ...). Atoms that occur in a large
+// share of the assertions (the receiver pointer, say) do not link anything.
+func relevantFacts(tb *TB, asserts []*Term, goalStart int, depth int) []*Term {
+	n := len(asserts)
+	atoms := make([]map[int]bool, n)
+	freq := map[int]int{}
+	for i, a := range asserts {
+		m := map[int]bool{}
+		seen := map[int]bool{}
+		var walk func(t *Term)
+		walk = func(t *Term) {
+			if seen[t.id] {
+				return
+			}
+			seen[t.id] = true
+			if !t.hasBV && (t.Op == "sym" || strings.HasPrefix(t.Op, "uf:")) {
+				m[t.id] = true
+			}
+			for _, x := range t.Args {
+				walk(x)
+			}
+		}
+		walk(a)
+		atoms[i] = m
+		for id := range m {
+			freq[id]++
+		}
+	}
+	maxFreq := n / 6
+	if maxFreq < 24 {
+		maxFreq = 24
+	}
+	live := map[int]bool{}
+	keep := make([]bool, n)
+	for i := goalStart; i < n; i++ {
+		keep[i] = true
+		for id := range atoms[i] {
+			live[id] = true
+		}
+	}
+	for d := 0; d < depth; d++ {
+		var add []int
+		for i := 0; i < goalStart; i++ {
+			if keep[i] {
+				continue
+			}
+			hit := len(atoms[i]) == 0
+			for id := range atoms[i] {
+				if live[id] && freq[id] <= maxFreq {
+					hit = true
+					break
+				}
+			}
+			if hit {
+				add = append(add, i)
+			}
+		}
+		if len(add) == 0 {
+			break
+		}
+		for _, i := range add {
+			keep[i] = true
+			for id := range atoms[i] {
+				live[id] = true
 			}
 		}
 	}
